@@ -208,7 +208,8 @@ def absorb(rep, results, pid):
         rep.violation(signature(res), f"{name}: {res.get('what')}", {'engine': 'pybmc', 'scenario': res['scenario'], 'trace': res.get('trace'), 'replay': res.get('replay')})
       else:
         rep.obligation(None, name, f"HARNESS-ERROR {v} trace did not reproduce on the real code: {res.get('replay')}")
-    elif v == 'bound' and res.get('depth') and (res.get('budget_exhausted') or ((res.get('scenario') or {}).get('hunt') and res.get('depth') == max(res['scenario'].get('hunt_depths') or [0]))):
+    elif v == 'bound' and res.get('depth') and (res.get('budget_exhausted') or rep.tier == 'thorough' or ((res.get('scenario') or {}).get('hunt') and res.get('depth') == max(res['scenario'].get('hunt_depths') or [0]))):
+      # thorough tier: a scenario that neither exhausts nor violates inside its depth list / time budget is a depth-bounded result
       # depth-bounded scenario ("bug hunting" in CBMC's terms): every interleaving of up to `depth` macro-steps was decided, longer executions were not
       rep.obligation(True, name + f':depth<={res["depth"]}')
       cov.setdefault('depth_bounded_scenarios', []).append({'job': name, 'depth': res['depth'], 'note': 'no deadlock / bad state within this many macro-steps; the unwinding '
